@@ -55,6 +55,13 @@ const c17KnownRescanDropped = "c17-iface-rescan-dropped-after-route-list-failure
 // believes it is already programmed.
 const c17KnownStaleTracker = "c17-iface-rescan-keeps-vanished-undesired-route-in-tracker"
 
+// c17KnownStaleIfaceState names a finding this check made (fixed since; TestVerifC17RegressionStaleIfaceState pins it):
+// RouteTable.OnIfaceStateChanged, "interface renumbered" branch, drops ifaceIndexToName[old index]
+// but keeps ifaceIndexToState[old index].  If that old index still exists under another name (the
+// interface was renamed and its former name re-used), refreshAllIfaceStates sees oldState ==
+// newState for it in every later full resync and never registers its new name.
+const c17KnownStaleIfaceState = "c17-renumbered-iface-leaves-stale-state-for-surviving-index"
+
 type c17NoopRecorder struct{}
 
 func (c17NoopRecorder) RecordOperation(string) {}
@@ -163,6 +170,10 @@ type c17H struct {
 	// re-listed the links in a full resync since.
 	ifaceStale    bool
 	renamePending bool // an in-place rename whose events are still undelivered
+	// believedNames: ifindex -> name as of the last moment Felix's interface knowledge was
+	// complete (all events delivered, or a full resync).
+	believedNames         map[int]string
+	suspectStaleIfaceState bool
 	extDirty           bool     // a route was edited behind Felix's back since its last full resync
 	resyncRequested    bool     // QueueResync (or a new RouteTable) since the last such edit
 	faultsSinceGood    int
@@ -250,6 +261,9 @@ func (h *c17H) desiredDump() string {
 }
 
 func (h *c17H) fail(format string, a ...any) {
+	if h.suspectStaleIfaceState {
+		format = "[possibly " + c17KnownStaleIfaceState + ": an interface was renamed and its former name re-used by another ifindex before Felix's full resync] " + format
+	}
 	if h.suspectStaleTracker {
 		format = "[possibly " + c17KnownStaleTracker + ": an owned but unwanted route vanished with its interface earlier in this history] " + format
 	}
@@ -280,6 +294,7 @@ func (h *c17H) newRouteTable() {
 	h.desired = map[routetable.RouteClass]map[string]map[c17Key]routetable.Target{}
 	h.pendingIfaceEvents = nil
 	h.ifaceStale, h.renamePending = false, false
+	h.believedNames = map[int]string{}
 	h.resyncRequested = true // a new RouteTable starts with a full resync
 	// The mock allows one open handle at a time; the old table's handle is abandoned.
 	h.dp.NetlinkOpen = false
@@ -521,6 +536,10 @@ func (h *c17H) apply() error {
 		// monitor's events are still on their way.
 		h.extDirty = false
 		h.resyncRequested = false
+		if h.ifaceStale && h.nameMovedToOtherIndex() {
+			h.suspectStaleIfaceState = true // only used to annotate a failure message
+			h.classes["name-moved-to-other-index-seen-first-by-full-resync"] = true
+		}
 		if h.ifaceStale {
 			h.classes["iface-change-seen-first-by-full-resync"] = true
 		}
@@ -529,6 +548,7 @@ func (h *c17H) apply() error {
 			h.renamePending = false
 		}
 		h.ifaceStale = false
+		h.syncBelief()
 	}
 	if h.ifaceStale || h.extDirty {
 		h.classes["apply-with-stale-knowledge"] = true
@@ -593,6 +613,29 @@ func (h *c17H) notify(t *rapid.T, name string, idx int, st ifacemonitor.State) {
 	}
 	h.deliverPending()
 	ev()
+	h.syncBelief()
+}
+
+func (h *c17H) syncBelief() {
+	h.believedNames = map[int]string{}
+	for n, l := range h.dp.NameToLink {
+		h.believedNames[l.LinkAttrs.Index] = n
+	}
+}
+
+// nameMovedToOtherIndex: an interface Felix knew still exists under a new name while the name
+// Felix knew it by now belongs to a different ifindex (finding c17KnownStaleIfaceState).
+func (h *c17H) nameMovedToOtherIndex() bool {
+	for idx, oldName := range h.believedNames {
+		cur := h.ifaceNameOfIndex(idx)
+		if cur == "" || cur == oldName {
+			continue
+		}
+		if l, ok := h.dp.NameToLink[oldName]; ok && l.LinkAttrs.Index != idx {
+			return true
+		}
+	}
+	return false
 }
 
 // lag queues interface events for later delivery.  A resync requested earlier may already have
@@ -611,6 +654,7 @@ func (h *c17H) deliverPending() {
 	h.pendingIfaceEvents = nil
 	h.ifaceStale = false
 	h.renamePending = false
+	h.syncBelief()
 }
 
 // The pools overlap on purpose: the same destination wanted by several route classes.
@@ -984,6 +1028,7 @@ func TestVerifC17RouteSync(t *testing.T) {
 					h.deliverPending()
 					evs[0]()
 					evs[1]()
+					h.syncBelief()
 					h.classes["iface-renamed-events-delivered"] = true
 				case 1: // events late; whatever comes next decides who notices first
 					h.lag(evs...)
@@ -1234,5 +1279,49 @@ func TestVerifC17RegressionStaleTracker(t *testing.T) {
 	}
 	if _, ok := dp.RouteKeyToRoute[key]; err == nil && !ok {
 		t.Fatalf("%s: Apply returned nil but desired route 10.0.0.2/32 via cali1 is not in the kernel (no failure was injected)", c17KnownStaleTracker)
+	}
+}
+
+
+// TestVerifC17RegressionStaleIfaceState is the plain regression test for finding
+// c17KnownStaleIfaceState (found by this check, fixed since); it fails if the defect comes back.
+func TestVerifC17RegressionStaleIfaceState(t *testing.T) {
+	ev.Quiet()
+	c17HookGomega()
+	dp := mocknetlink.New()
+	tm := mocktime.New()
+	pol := ownershippol.NewMainTable(c17VXLANIface, unix.RTPROT_BOOT, []string{"cali"}, false, false)
+	rt := routetable.New(pol, 4, 10*time.Second, nil, unix.RTPROT_BOOT, false, unix.RT_TABLE_MAIN, c17NoopRecorder{}, dp,
+		routetable.WithConntrackCleanup(false), routetable.WithTimeShim(tm), routetable.WithNetlinkHandleShim(dp.NewMockNetlink))
+	// Felix knows cali3 = ifindex 12, up (start-of-day resync plus the monitor's event).
+	dp.AddIface(12, "cali3", true, true)
+	if err := rt.Apply(); err != nil {
+		t.Fatalf("set-up Apply failed: %v", err)
+	}
+	rt.OnIfaceStateChanged("cali3", 12, ifacemonitor.StateUp) // also queues a rescan of cali3
+	// Before the next Apply, ifindex 12 is renamed to cali2 and a new interface takes the name
+	// cali3 (ifindex 13).  The interface monitor's events for this have not arrived yet.
+	l := dp.NameToLink["cali3"]
+	delete(dp.NameToLink, "cali3")
+	l.LinkAttrs.Name = "cali2"
+	dp.NameToLink["cali2"] = l
+	dp.AddIface(13, "cali3", true, true)
+	if err := rt.Apply(); err != nil { // the rescan of "cali3" finds ifindex 13: "renumbered"
+		t.Fatalf("Apply (rescan) failed: %v", err)
+	}
+	// Felix wants a route via cali2 and does a full resync, which lists all links.
+	rt.SetRoutes(routetable.RouteClassLocalWorkload, "cali2", []routetable.Target{{RouteKey: routetable.RouteKey{CIDR: ip.MustParseCIDROrIP("10.0.0.1/32")}}})
+	rt.QueueResync()
+	err := rt.Apply()
+	if f := c17TakeMockFailures(); len(f) > 0 {
+		t.Skipf("HARNESS-GAP: mock assertion failed: %v", f)
+	}
+	key := mocknetlink.KeyForRoute(&netlink.Route{Table: unix.RT_TABLE_MAIN, Dst: c17MustCIDR("10.0.0.1/32")})
+	if _, ok := dp.RouteKeyToRoute[key]; err == nil && !ok {
+		rt.QueueResync()
+		err2 := rt.Apply()
+		_, ok2 := dp.RouteKeyToRoute[key]
+		t.Fatalf("%s: Apply with a full resync returned nil but desired route 10.0.0.1/32 via cali2 (ifindex 12, up) is not in the kernel; another full resync + Apply returned %v, route present: %v",
+			c17KnownStaleIfaceState, err2, ok2)
 	}
 }
